@@ -123,14 +123,26 @@ variable {S R : Type} (step : S → RawFrame → S × Option R × Bool) (close :
 stream was cut into received blocks.** -/
 theorem serve_chunks (s : S) (cs : List Bytes) :
     serveChunks step close s cs = serveStream step close s cs.flatten := by
-  have := foldl_recv step { st := s, acc := [], replies := [], alive := true } rfl split1_nil cs
-  simp only [List.nil_append] at this
+  have := foldl_recv step (Conn.init s) rfl split1_nil cs
+  simp only [Conn.init, List.nil_append] at this
   obtain ⟨h1, h2, h3, h4⟩ := this
-  unfold serveChunks serveStream finish
+  unfold serveChunks serveStream finish Conn.init
   simp only [h1, h2, h3]
   by_cases ha : (serveFrames step s (frames cs.flatten).1).2.2 = true
   · simp only [ha, if_true, h4 ha]
   · simp [ha]
+
+/-- **Every time the connection comes back for more input, exactly the frames whose final byte it has been
+given have been acted upon** (state and replies are those of the complete frames of the bytes received so
+far; a frame is not held back waiting for bytes that follow it). -/
+theorem serve_progress (s : S) (cs : List Bytes) (i : Nat) (h : i < cs.length) :
+    ∃ c, (Conn.trace step (Conn.init s) cs)[i]? = some c ∧
+      c.st = (serveFrames step s (frames (cs.take (i + 1)).flatten).1).1 ∧
+      c.replies = (serveFrames step s (frames (cs.take (i + 1)).flatten).1).2.1 := by
+  refine ⟨_, trace_getElem step _ cs i h, ?_⟩
+  have := foldl_recv step (Conn.init s) rfl split1_nil (cs.take (i + 1))
+  simp only [Conn.init, List.nil_append] at this
+  exact ⟨this.1, this.2.1⟩
 
 theorem serve_partition_irrelevant (s : S) (cs ds : List Bytes) (h : cs.flatten = ds.flatten) :
     serveChunks step close s cs = serveChunks step close s ds := by
